@@ -678,6 +678,13 @@ def deep_clone(value: Any) -> Any:
             # This is a list of PropertyTreeNode objects (like tasks in depends)
             # Do a shallow copy to preserve object identity
             return list(value)
+        if any(hasattr(item, "propertySet") for item in value) or any(
+            isinstance(item, dict) and any(hasattr(v, "propertySet") for v in item.values()) for item in value
+        ):
+            # Entries that reference PropertyTreeNode objects (e.g. dependencies with
+            # options: {"task": <Task>, "gapduration": ...}) must keep referring to the
+            # same nodes; copy the containers only.
+            return [dict(item) if isinstance(item, dict) else item for item in value]
         else:
             # Regular list, deep copy
             return copy.deepcopy(value)
